@@ -767,8 +767,9 @@ class URL:
         """
         if (raw := self.raw_host) is None:
             return None
-        if raw and raw[-1].isdigit() or ":" in raw:
-            # IP addresses are never IDNA encoded
+        if raw and raw[-1].isdigit() and "xn--" not in raw or ":" in raw:
+            # IP addresses are never IDNA encoded; a registered name whose
+            # last label merely ends with a digit (``bücher.h1``) still is.
             return raw
         return _idna_decode(raw)
 
